@@ -796,7 +796,8 @@ func main() {
 		if run.Thorough() {
 			add("wideword-rs8-R1-O11", bmgen.ArchSpec{Rsize: 8, R: 1, N: 1, M: 1, L: 1, O: 11, Ops: ops}, 3, 300000, "boundary", []uint64{0, 0xa5})
 			add("wideword-rs8-R2-O13", bmgen.ArchSpec{Rsize: 8, R: 2, N: 2, M: 2, L: 2, O: 13, Ops: ops}, 2, 300000, "boundary", []uint64{0, 0xa5})
-			add("wideword-rs16-R1-O20", bmgen.ArchSpec{Rsize: 16, R: 1, N: 1, M: 1, L: 1, O: 20, Ops: table.opsAt(16)}, 2, 300000, "boundary", []uint64{0, 0x8025})
+			// (no rs16 configuration with O > 16: Rom.Write_verilog builds its 2^O-line case statement by string
+			// concatenation, quadratic in 2^O — at O = 20 rendering alone outlasts every budget)
 		} else {
 			add("wideword-rs8-R1-O11", bmgen.ArchSpec{Rsize: 8, R: 1, N: 1, M: 1, L: 1, O: 11, Ops: ops}, 3, 60000, "boundary", []uint64{0, 0xa5})
 		}
@@ -834,6 +835,9 @@ func main() {
 	globalEnd := time.Now().Add(4 * time.Minute)
 	if run.Thorough() {
 		globalEnd = time.Now().Add(40 * time.Minute)
+	}
+	if v, err := strconv.Atoi(os.Getenv("C01_BUDGET_MIN")); err == nil && v > 0 {
+		globalEnd = time.Now().Add(time.Duration(v) * time.Minute)
 	}
 	results := make([]result, len(cfgs))
 	var wg sync.WaitGroup
